@@ -1289,7 +1289,7 @@ def check(ctx, res):
     corpus = load_corpus()
     if corpus:
         run_batch(ctx, res, corpus, kinds, 'corpus')
-    n = ctx.n(350, 30000)
+    n = ctx.n(350, 5000)        # thorough: about 25 minutes (30000 would take more than two hours)
     _generated(ctx, res, rng, n, kinds)
     codec_cases(ctx, res, rng, ctx.n(300, 5000))
     if 'mongo' in kinds:
